@@ -46,12 +46,12 @@ ASSUMPTIONS = ['real-valued records (complex input to the Stockwell functions is
                'response_times, smoothing frequencies, peak values) must not change; private memo attributes (e.g. the swtf attribute '
                'cached on a signal by the Stockwell helpers) are not "input arrays"']
 MIN_EVALS = {'quick': {'invariant(values numeric ndarray, len==npts, time==dt*arange)': 20000, 'purity.args-unchanged': 15000,
-                       'purity.repeatable': 2000, 'purity.earlier-result-unchanged-by-later-call': 10000, 'ownership.caller-array-unchanged': 2500,
+                       'purity.repeatable': 2000, 'purity.result-independent-of-earlier-calls': 2000, 'purity.earlier-result-unchanged-by-later-call': 10000, 'ownership.caller-array-unchanged': 2500,
                        'ownership.object-unaffected-by-caller-writes': 350, 'ownership.object-to-object': 150,
                        'ownership.returned-signal-owns-its-data': 250, 'ownership.dt-kept-bit-for-bit': 250, 'purity.repeatable-after-other-analysis-calls': 1800,
                        'purity.signal-argument-observables-unchanged': 1800, 'purity.process-wide-numpy-state-restored': 15000},
              'thorough': {'invariant(values numeric ndarray, len==npts, time==dt*arange)': 500000, 'purity.args-unchanged': 300000,
-                          'purity.repeatable': 50000, 'purity.earlier-result-unchanged-by-later-call': 200000, 'ownership.caller-array-unchanged': 60000,
+                          'purity.repeatable': 50000, 'purity.result-independent-of-earlier-calls': 50000, 'purity.earlier-result-unchanged-by-later-call': 200000, 'ownership.caller-array-unchanged': 60000,
                           'ownership.object-unaffected-by-caller-writes': 8000, 'ownership.object-to-object': 3500,
                           'ownership.returned-signal-owns-its-data': 6000, 'ownership.dt-kept-bit-for-bit': 5000, 'purity.repeatable-after-other-analysis-calls': 45000,
                           'purity.signal-argument-observables-unchanged': 45000, 'purity.process-wide-numpy-state-restored': 300000,
@@ -335,6 +335,12 @@ def recipes(eqsig):
     reg('pc.get_peak_array_indices(max)', lambda rng, x, k: (pc.get_peak_array_indices, (x,), {'ptype': 'max'}))
     reg('pc.get_switched_peak_array_indices(tol)', lambda rng, x, k: (pc.get_switched_peak_array_indices, (x,), {'tol': 0.3}))
     reg('pc.get_zero_crossings_array_indices(tol,kaz)', lambda rng, x, k: (pc.get_zero_crossings_array_indices, (x,), {'tol': 0.2, 'keep_adj_zeros': True}))
+    def _amp(x):
+        return float(np.max(np.abs(np.asarray(x, dtype=float)))) or 1.0
+    reg('pc.get_zero_crossings_array_indices(tol~amplitude)',
+        lambda rng, x, k: (pc.get_zero_crossings_array_indices, (x,), {'tol': float(rng.choice([0.05, 0.2, 0.5])) * _amp(x)}))
+    reg('pc.get_switched_peak_array_indices(tol~amplitude)',
+        lambda rng, x, k: (pc.get_switched_peak_array_indices, (x,), {'tol': float(rng.choice([0.05, 0.2, 0.5])) * _amp(x)}))
     for nm in ['get_peak_indices', 'get_zero_crossings_indices', 'get_switched_peak_indices']:
         reg('pc.' + nm, (lambda nm: lambda rng, x, k: (getattr(pc, nm), (A(x),), {}))(nm))
     for nm in ['calc_arias_intensity', 'calc_cav', 'calc_isv', 'calc_integral_of_abs_velocity', 'calc_cumulative_abs_displacement',
@@ -663,7 +669,65 @@ def judge_one_recipe(ctx, eqsig, name, f, args, kwargs, kind):
                   lambda: {'kind': 'repeat', 'recipe': CURRENT['recipe']}, '%s returned a different result when called again (%s input)' % (name, kind))
     except Exception as e:
         ctx.violation('purity.repeatable', {'kind': 'repeat', 'recipe': CURRENT['recipe']}, '%s raised on the second call only: %r' % (name, e))
+    judge_history_independence(ctx, eqsig, name, f, args, kwargs, r1, kind)
     judge_result_ownership(ctx, eqsig, name, r1, args, kwargs)
+
+
+HIST_IND = 'purity.result-independent-of-earlier-calls'
+_RECIPES = {}
+
+
+def judge_history_independence(ctx, eqsig, name, f, args, kwargs, r1, kind):
+    """"returns the same result when called again" also when OTHER inputs were processed in between: f(A); f(B1); f(B2); f(A)
+    with B1 the reversed record of A (same container, dtype and shape - a memo keyed on the shape, a scratch buffer of that size)
+    and B2 an unrelated draw of the same recipe (other length, container, option values). A mutable default argument, a helper
+    that keeps indices of the previous record, a cache keyed on too little: all make the last call differ from the first."""
+    rc = CURRENT.get('recipe') or {}
+    if rc.get('name') == 'sequence' or 'record' not in rc:
+        return
+    if 'R' not in _RECIPES:
+        _RECIPES['R'] = recipes(eqsig)
+    build = _RECIPES['R'].get(name)
+    if build is None:
+        return
+    rng = ctx.rng
+    x = rc['record']
+    xa = np.asarray(x)
+    others = []
+    try:
+        rev = np.ascontiguousarray(xa[::-1]).astype(xa.dtype)
+        if xa.dtype.kind == 'f':
+            rev = (rev * xa.dtype.type(0.75)).astype(xa.dtype)
+        others.append(([float(t) for t in rev] if kind == 'list' else rev, kind))
+    except Exception:
+        pass
+    x2, kind2, _ = draw_record(rng)
+    others.append((x2, kind2))
+    ran = 0
+    saved = CURRENT['recipe']
+    for xb, kb in others:
+        try:
+            with warnings.catch_warnings():
+                warnings.simplefilter('ignore')
+                CURRENT['recipe'] = {'name': name, 'kind': kb, 'record': np.asarray(xb), 'role': 'intermediate call of ' + HIST_IND}
+                fb, ab, kwb = build(rng, xb, kb)
+                fb(*ab, **kwb)
+            ran += 1
+        except Exception as e:
+            ctx.observe('intermediate-call-raised:' + type(e).__name__)
+    CURRENT['recipe'] = saved
+    if not ran:
+        return
+    try:
+        with warnings.catch_warnings():
+            warnings.simplefilter('ignore')
+            r3 = f(*args, **kwargs)
+    except Exception as e:
+        ctx.violation(HIST_IND, {'kind': 'repeat', 'recipe': CURRENT['recipe']},
+                      '%s raised when called again after calls with other inputs: %r' % (name, e))
+        return
+    ctx.check(same_result(r1, r3), HIST_IND, lambda: {'kind': 'repeat', 'recipe': CURRENT['recipe']},
+              '%s returned a different result for the same arguments after it had been called with other inputs (%s input)' % (name, kind))
 
 
 def drive_purity(ctx, eqsig, draws):
@@ -813,8 +877,15 @@ def drive_ownership(ctx, eqsig, nh):
         if h % 2 == 0:
             try:
                 s1 = eqsig.AccSignal(np.array(np.sin(np.arange(n) * 0.3) + 0.05 * rng.normal(size=n)), H.DT)
-                how = int(rng.integers(3))
-                if how == 0:
+                how = int(rng.integers(5))
+                if how == 3:       # Python's copy protocols: a deep copy / an unpickled copy owns its data like a constructed one
+                    s1.velocity, s1.fa_spectrum, s1.pga
+                    s2 = copy.deepcopy(s1)
+                elif how == 4:
+                    import pickle
+                    s1.smooth_fa_spectrum, s1.pgd
+                    s2 = pickle.loads(pickle.dumps(s1))
+                elif how == 0:
                     s2 = eqsig.AccSignal(s1.values, H.DT)
                 elif how == 1:
                     s2 = eqsig.AccSignal(np.zeros(n) + 1.0, H.DT)
